@@ -38,11 +38,13 @@ def draw_run(seed, i, cfgs, tier):
     rs = base.run_seed(seed, i)
     rng = base.rng_for(rs)
     # weight cheap configurations higher but keep the expensive ones in play
-    weights = [1.0 / (1 + c['nfun'] / 150.0) for c in cfgs]
+    # ... and configurations whose sequential run exercises check_results' un-merge path (it re-maps shuffled,
+    # scattered indices) are worth more
+    weights = [(4.0 if c.get('unmerged') else 1.0) / (1 + c['nfun'] / 150.0) for c in cfgs]
     cfg = rng.choices(cfgs, weights)[0]
     P = rng.choice(P_CHOICES)
     if cfg['nfun'] > 400:
-        P = min(P, 7)
+        P = min(P, 8)
     kind = rng.choice(POLICIES)
     pol = {'kind': kind}
     if kind == 'pct':
@@ -66,8 +68,8 @@ def main(tier, seed, budget):
     explore_s = budget or (150 if quick else 1500)
     hashseeds = [0] if quick else [0, 1, 2, 3]
     crng = base.rng_for(seed, 'c13-configs')
-    cfgs, skipped = configs.pool(crng, n_sub=10 if quick else 40, max_n=4 if quick else 5,
-                                 cap=400 if quick else 1700)
+    cfgs, skipped = configs.pool(crng, n_sub=10 if quick else 40, max_n=5,
+                                 cap=600 if quick else 1700)
     stats = dict(worlds=0, ref_worlds=0, by_P={}, by_policy={}, eager={}, root_copy=0, events=0, mpi=0, fs=0,
                  rdigests=set(), nontrivial=set(), harness=0, sound_functions=0, sound_points=0, empty_slice_runs=0,
                  hashseeds=hashseeds, ref_failed=[])
@@ -125,6 +127,9 @@ def main(tier, seed, budget):
                     stats['ref_failed'].append([a['runname'], a['compl'], sorted(ss)])
                     continue
                 refs[cfg_key(a)] = r['hashes']
+                for c in cfgs:
+                    if (c['runname'], c['compl']) == cfg_key(a):
+                        c['unmerged'] = r.get('n_unmerged') or 0
             live_cfgs = [c for c in cfgs if (c['runname'], c['compl']) in refs]
             if not live_cfgs:
                 rep.harness_error('no reference world succeeded')
@@ -204,9 +209,9 @@ def main(tier, seed, budget):
         rule='one evaluation = one simulated generation world. Configuration (6 shipped bases + seeded sub-bases, complexity 1..%d, '
              'predicted functions <= cap), P in 2..16, scheduler policy, eager bias, bcast-root coin drawn from run_seed = VERIF_SEED*1e6+i. '
              'Non-trivial = P >= 2; distinct = distinct (configuration, P, hash seed, reduced interleaving digest), the digest hashing the '
-             'order in which ranks touch every object (collective instance, shared path) touched by >= 2 ranks.' % (4 if quick else 5),
+             'order in which ranks touch every object (collective instance, shared path) touched by >= 2 ranks.' % 5,
         samples=samples,
-        configurations=len(cfgs), configurations_skipped_over_cap=len(skipped), reference_failed=stats['ref_failed'],
+        configurations=len(cfgs), configurations_skipped_over_cap=len(skipped), configurations_with_unmerge_path=sum(1 for c in cfgs if c.get('unmerged')), reference_failed=stats['ref_failed'],
         worlds_by_P=stats['by_P'], worlds_by_policy=stats['by_policy'], eager_bias=stats['eager'], bcast_root_copy_runs=stats['root_copy'],
         runs_with_more_ranks_than_functions=stats['empty_slice_runs'],
         seam_events=stats['events'], mpi_events=stats['mpi'], fs_events=stats['fs'],
